@@ -272,7 +272,7 @@ type c05result struct {
 // and every Write operand are scribbled over as soon as the call returns, Sum
 // prefixes come with none/small/large spare capacity inside a sentinel-filled
 // backing array, and returned slices are kept and re-verified later.
-func c05exec(m *mon.M, sc *c05scenario, impl string, arena *guard.Arena, gentle bool) (res c05result) {
+func c05exec(m *mon.M, sc *c05scenario, impl string, arena *guard.Arena, gentle, keepKey bool) (res c05result) {
 	a := sc.a
 	tag := a.name + ":" + impl
 	setStruct := func(key string, d map[string]any) {
@@ -281,7 +281,7 @@ func c05exec(m *mon.M, sc *c05scenario, impl string, arena *guard.Arena, gentle 
 		}
 	}
 	verifyRing := func(after string) {
-		if gentle {
+		if gentle || keepKey {
 			return
 		}
 		if bad := c05ring.verify(); bad != nil {
@@ -296,7 +296,7 @@ func c05exec(m *mon.M, sc *c05scenario, impl string, arena *guard.Arena, gentle 
 			setStruct("constructor-rejects-valid-params:"+a.name, map[string]any{"ctor": ctor, "err": err.Error()})
 			return
 		}
-		if !gentle && len(key) > 0 {
+		if !gentle && !keepKey && len(key) > 0 {
 			scribble(key) // the constructor must have copied the key
 			m.Count("keys_scribbled_after_constructor", 1)
 		}
@@ -306,7 +306,7 @@ func c05exec(m *mon.M, sc *c05scenario, impl string, arena *guard.Arena, gentle 
 		for ph := 0; ph < 2; ph++ {
 			if ph == 1 {
 				h.Reset()
-				if !gentle {
+				if !gentle && !keepKey {
 					scribble(key)
 				}
 			}
@@ -332,7 +332,7 @@ func c05exec(m *mon.M, sc *c05scenario, impl string, arena *guard.Arena, gentle 
 						copy(back, o.prefix)
 						capIn = len(o.prefix) + spare
 						in = back[:len(o.prefix):capIn]
-						if !gentle {
+						if !gentle && !keepKey {
 							m.Count(fmt.Sprintf("sum_prefix_spare_class:%d", o.spare), 1)
 						}
 					}
@@ -354,7 +354,7 @@ func c05exec(m *mon.M, sc *c05scenario, impl string, arena *guard.Arena, gentle 
 					} else {
 						res.sums = append(res.sums, c05sumRes{o, append([]byte{}, out[len(o.prefix):]...)})
 					}
-					if !gentle {
+					if !gentle && !keepKey {
 						c05ring.add(out, fmt.Sprintf("result of Sum(%d-byte prefix, spare class %d) on %s, phase %s", len(o.prefix), o.spare, tag, o.phase))
 					}
 					verifyRing("Sum")
@@ -376,7 +376,9 @@ func c05exec(m *mon.M, sc *c05scenario, impl string, arena *guard.Arena, gentle 
 				}
 				if !gentle {
 					scribble(buf) // Write must not retain p
-					m.Count("write_operands_scribbled", 1)
+					if !keepKey {
+						m.Count("write_operands_scribbled", 1)
+					}
 				}
 				verifyRing("Write")
 			}
@@ -395,8 +397,8 @@ func c05exec(m *mon.M, sc *c05scenario, impl string, arena *guard.Arena, gentle 
 // c05gentleAgrees re-runs the scenario without any scribbling: if everything is
 // right then, the divergence is caused by the implementation depending on
 // caller memory after the call returned.
-func c05gentleAgrees(m *mon.M, sc *c05scenario, impl string, arena *guard.Arena) bool {
-	g := c05exec(m, sc, impl, arena, true)
+func c05gentleAgrees(m *mon.M, sc *c05scenario, impl string, arena *guard.Arena, keepKeyOnly bool) bool {
+	g := c05exec(m, sc, impl, arena, !keepKeyOnly, keepKeyOnly)
 	if g.fault != nil || g.pv != nil || g.structural != "" {
 		return false
 	}
@@ -420,7 +422,7 @@ func c05run(m *mon.M, sc *c05scenario, impl string, arena *guard.Arena) {
 		}
 		return w
 	}
-	res := c05exec(m, sc, impl, arena, false)
+	res := c05exec(m, sc, impl, arena, false, false)
 	sums := res.sums
 	if res.fault != nil {
 		m.Count("guard_faults", 1)
@@ -447,7 +449,10 @@ func c05run(m *mon.M, sc *c05scenario, impl string, arena *guard.Arena) {
 		}
 		d := wit(map[string]any{"phase": s.op.phase, "got": mon.Hex(s.got), "want": mon.Hex(s.op.want)})
 		switch {
-		case c05gentleAgrees(m, sc, impl, arena):
+		case len(sc.key) > 0 && c05gentleAgrees(m, sc, impl, arena, true):
+			d["note"] = "the same scenario (Write operands still scribbled) is correct when only the caller's key slice is left untouched after the constructor returned"
+			m.Violation("constructor-retains-caller-key:"+a.name, d)
+		case c05gentleAgrees(m, sc, impl, arena, false):
 			d["note"] = "the same scenario is correct when the caller leaves key and Write buffers untouched after the calls return"
 			m.Violation("retains-caller-memory:"+tag, d)
 		case s.op.phase == "repeat":
